@@ -483,6 +483,59 @@ let run_pm (typ : string) (flag : string) (hex : string) : string =
   | 67 -> pm_out (fun p -> [hex_of_bytes p]) (nextProto_unmarshal data)
   | _ -> "SKIP"
 
+(* ---- PW cases: the marshal models, and unmarshal (marshal m) printed back -------------------------------------------- *)
+let u16list_of (s : string) : n list =
+  if s = "-" || s = "" then [] else List.map hexn (String.split_on_char '.' s)
+let strs_of = recs_of
+let bool_of (s : string) = (s = "1")
+
+(* the canonical field strings of each type, as run_pm prints them *)
+let pm_fields (typ : string) (fl : bool) (data : n list) : string =
+  match typ with
+  | "13g" ->
+    (match certificateRequestMsgGM_unmarshal (nat_of_int (List.length data)) data with
+     | Ok (types, cas) -> "ok " ^ hex_of_bytes types ^ " " ^ hexlist_dot cas
+     | Err _ -> "err" | Panic -> "PANIC" | Hang -> "HANG")
+  | _ -> run_pm typ (if fl then "1" else "0") (hex_of_bytes data)
+
+let run_pw (f : string array) : string =
+  let typ = f.(2) and fl = (f.(3) = "1") in
+  let a i = if 5 + i < Array.length f then f.(5 + i) else "-" in
+  let out =
+    match typ with
+    | "1" ->
+      Some (clientHello_marshal
+        { f_vers = hexn (a 0); f_random = bytes_of_hex (a 1); f_sid = bytes_of_hex (a 2); f_suites = u16list_of (a 3);
+          f_comp = bytes_of_hex (a 4); f_npn = bool_of (a 5); f_sni = bytes_of_hex (a 6); f_ocsp = bool_of (a 7);
+          f_curves = u16list_of (a 8); f_points = bytes_of_hex (a 9); f_ticket_supported = bool_of (a 10);
+          f_ticket = bytes_of_hex (a 11); f_sigalgs = u16list_of (a 12); f_reneg_supported = bool_of (a 13);
+          f_reneg = bytes_of_hex (a 14); f_alpn = strs_of (a 15); f_scts = bool_of (a 16) })
+    | "2" ->
+      Some (serverHello_marshal
+        { g_vers = hexn (a 0); g_random = bytes_of_hex (a 1); g_sid = bytes_of_hex (a 2); g_suite = hexn (a 3);
+          g_comp = hexn (a 4); g_npn = bool_of (a 5); g_protos = strs_of (a 6); g_ocsp = bool_of (a 7);
+          g_ticket = bool_of (a 8); g_reneg_supported = bool_of (a 9); g_reneg = bytes_of_hex (a 10);
+          g_alpn = bytes_of_hex (a 11); g_scts = strs_of (a 12) })
+    | "4" -> Some (newSessionTicket_marshal (bytes_of_hex (a 0)))
+    | "11" -> Some (certificate_marshal (strs_of (a 0)))
+    | "12" -> Some (serverKeyExchange_marshal (bytes_of_hex (a 0)))
+    | "13" -> Some (certificateRequest_marshal fl (bytes_of_hex (a 0)) (u16list_of (a 1)) (strs_of (a 2)))
+    | "13g" -> Some (certificateRequestGM_marshal (bytes_of_hex (a 0)) (strs_of (a 1)))
+    | "14" -> Some serverHelloDone_marshal
+    | "15" -> Some (certificateVerify_marshal fl (hexn (a 0)) (bytes_of_hex (a 1)))
+    | "16" -> Some (clientKeyExchange_marshal (bytes_of_hex (a 0)))
+    | "20" -> Some (finished_marshal (bytes_of_hex (a 0)))
+    | "22" -> Some (certificateStatus_marshal (hexn (a 0)) (bytes_of_hex (a 1)))
+    | "67" -> Some (nextProto_marshal (bytes_of_hex (a 0)))
+    | _ -> None in
+  match out with
+  | None -> "SKIP"
+  | Some bytes ->
+    let nf = Array.length f - 5 in
+    let want = String.concat " " ("ok" :: Array.to_list (Array.sub f 5 (max nf 0))) in
+    let got = pm_fields typ fl bytes in
+    hex_of_bytes bytes ^ " " ^ (if got = want then "1" else "0")
+
 let handle (f : string array) : string =
   match f.(0) with
   | "S" -> run_script f.(2) f.(3) f.(4)
@@ -493,6 +546,7 @@ let handle (f : string array) : string =
   | "AS" -> run_as f.(2) f.(3) f.(4)
   | "AC" -> run_ac f.(2) f.(3) f.(4)
   | "AM" -> run_am f.(2) f.(3) f.(4) f.(5) f.(6) f.(8)
+  | "PW" -> run_pw f
   | "PM" -> run_pm f.(2) f.(3) (if Array.length f > 4 then f.(4) else "-")
   | "PK" ->
     (match ecc_ckx_prefix (bytes_of_hex f.(2)) with
